@@ -314,15 +314,48 @@ func (d *Driver) Apply(e *mc.Env, s *mc.State, op mc.Op) []mc.Finding {
 	return d.only(d.apply(e, s, op))
 }
 
+var adoptC13 = map[string]string{"C06/refund-at-end-differs": "C13/farm/due-processing/refund-at-end-differs", "C06/refunded-twice": "C13/farm/due-processing/refunded-twice"}
+
 // only keeps the findings of the property this exploration decides.
 func (d *Driver) only(fs []mc.Finding) []mc.Finding {
-	var out []mc.Finding
-	for _, f := range fs {
-		if len(f.Sig) >= 4 && f.Sig[:4] == d.V.Mode+"/" {
-			out = append(out, f)
+	if d.V.Mode == "C13" {
+		return mc.Select(fs, "C13", adoptC13)
+	}
+	return mc.Select(fs, d.V.Mode, nil)
+}
+
+// Hygiene compares the raw active-pool queue with the pools: every entry refers to an existing pool ending
+// at the entry's height that has not been ended yet; every pool not yet ended has exactly one entry, at its
+// end height; no entry is at a height whose end-block has already run.
+func Hygiene(e *mc.Env, s *mc.State) []mc.Finding {
+	var fs []mc.Finding
+	h := s.Ctx.BlockHeight()
+	entries := map[string]int{}
+	for _, q := range mc.QueueEntries(s.Ctx, e, "farm", 0x04) {
+		id := string(q.Rest)
+		entries[id]++
+		r, err := e.Farm.FarmPool(s.Ctx, &farmtypes.QueryFarmPoolRequest{Id: id})
+		switch {
+		case err != nil:
+			fs = append(fs, mc.F("C13/queue/farm/entry-without-pool", "queue entry at height %d for unknown pool %s", q.Height, id))
+		case r.Pool.EndHeight != q.Height:
+			fs = append(fs, mc.F("C13/queue/farm/entry-height-differs", "queue entry at height %d, pool ends at %d", q.Height, r.Pool.EndHeight))
+		}
+		if q.Height < h {
+			fs = append(fs, mc.F("C13/queue/farm/entry-in-the-past", "queue entry at height %d still present in block %d (end-block of that height has run)", q.Height, h))
 		}
 	}
-	return out
+	e.Farm.IteratorAllPools(s.Ctx, func(p farmtypes.FarmPool) {
+		ended := h > p.EndHeight
+		n := entries[p.Id]
+		if !ended && h < p.EndHeight && n != 1 {
+			fs = append(fs, mc.F("C13/queue/farm/live-pool-entry-count", "pool ending at %d has %d queue entries in block %d", p.EndHeight, n, h))
+		}
+		if ended && n != 0 {
+			fs = append(fs, mc.F("C13/queue/farm/ended-pool-still-queued", "pool ended at %d still has %d queue entries in block %d", p.EndHeight, n, h))
+		}
+	})
+	return fs
 }
 
 func (d *Driver) apply(e *mc.Env, s *mc.State, op mc.Op) []mc.Finding {
@@ -582,7 +615,11 @@ func permutations(xs []string) [][]string {
 }
 
 func (d *Driver) Check(e *mc.Env, s *mc.State) []mc.Finding {
-	return d.only(d.check(e, s))
+	fs := d.check(e, s)
+	if d.V.Mode == "C13" {
+		fs = append(fs, Hygiene(e, s)...)
+	}
+	return d.only(fs)
 }
 
 func (d *Driver) check(e *mc.Env, s *mc.State) []mc.Finding {
